@@ -87,7 +87,7 @@ class Scheduler:
     def __init__(self, bodies: Sequence[Callable[["Scheduler", int], None]], schedule: dict, *,
                  traced_files: frozenset, no_yield: frozenset = frozenset(),
                  grace: float = 2.0, block_detect: float = 0.05, max_steps: int = 200_000, record: bool = False,
-                 on_switch: Optional[Callable] = None, engine: str = "settrace"):
+                 on_switch: Optional[Callable] = None, engine: str = "settrace", log_files: bool = False):
         n = len(bodies)
         prio = list(schedule.get("prio") or range(n))
         if sorted(prio) != list(range(n)):
@@ -119,6 +119,10 @@ class Scheduler:
         if engine not in ("settrace", "monitoring"):
             raise ValueError(engine)
         self._engine = engine
+        # recorded log entries name the function as "<dir>/<file>.py:<function>" instead of "<function>" (needed when the
+        # traced files are a whole package: equal (function, line) pairs exist in different files)
+        self._log_files = log_files
+        self._log_names: dict = {}
         self.result = Result()
         if record:
             self.result.log = []
@@ -156,7 +160,12 @@ class Scheduler:
             log = self.result.log
             if log is not None:
                 code = frame.f_code
-                log.append((ts.idx, label or code.co_name, frame.f_lineno if label is None else 0))
+                name = label or code.co_name
+                if self._log_files and label is None:
+                    name = self._log_names.get(code)
+                    if name is None:
+                        name = self._log_names[code] = "/".join(code.co_filename.rsplit("/", 2)[-2:]) + ":" + code.co_name
+                log.append((ts.idx, name, frame.f_lineno if label is None else 0))
             if g not in self._cps:
                 if g >= self._max_steps:
                     self._abort = True
